@@ -102,9 +102,11 @@ class _InMemoryFeedback(Feedback):
       elapse_secs: float) -> None:
     """Adds a measurement to current trial."""
     if self._trial.status != 'PENDING':
+      # NOTE: the trial may be being updated by the worker that completes it,
+      # thus only its id and status are reported.
       raise RaceConditionError(
           f'Measurements can only be added to PENDING trials. '
-          f'Encountered: {self._trial}')
+          f'Encountered: trial {self._trial.id} ({self._trial.status}).')
     self._trial.measurements.append(Measurement(
         step=step,
         reward=reward,
